@@ -430,6 +430,14 @@ def c20_check(pid, tier, seed, replay=None):
 
 
 CHECKS = {
+    "C16": composed_check("C16",
+        [dict(module="UserCode", sub="tbl-usercode", prefixes=("C16.",), label="device authorization response table",
+              sig=lambda o: f"usercode:{o['c']['via']}:{o['c']['charset']}:{o['c']['amount']}:{o['c']['interval']}",
+              need=lambda o: [f"via:{o['c']['via']}:{o['o']['ok']}"], required=["via:func:True", "via:P:True", "via:L:True"])],
+        ["device authorization response: 4 alphabets (incl. a single character and non-ASCII runes) x 5 lengths x 5 dash intervals, 40 codes / responses per case; "
+         "unguessability of the device code is checked as length (>= 128 bit) and pairwise distinctness only; empty alphabets / zero lengths are non-configurations; "
+         "the deprecated absolute UserFormURL is not exercised"],
+        world=True),
     "C20": c20_check,
     "C19": simple_table_check(
         [dict(module="Discovery", sub="tbl-discovery", prefixes=("C19.",), sig=c19_sig, need=c19_need, label="discovery table",
